@@ -197,14 +197,29 @@ def guarded_list_items(fn_node):
             return list(st.value.elts)
         return []
 
+    def display_items(e, guard):
+        """[a, *([b] if c else []), ...] -> items with their conditions"""
+        for x in e.elts:
+            if isinstance(x, ast.Starred) and isinstance(x.value, ast.IfExp) and isinstance(x.value.body, ast.List) and isinstance(x.value.orelse, ast.List) \
+                    and not x.value.orelse.elts and guard is None:
+                for y in x.value.body.elts:
+                    out.append((ast.unparse(x.value.test), y))
+            elif not isinstance(x, ast.Starred):
+                out.append((guard, x))
+
     def walk(body, guard):
         for st in body:
             for it in items_of(st):
                 out.append((guard, it))
+            if isinstance(st, (ast.Assign, ast.AnnAssign)) and isinstance(getattr(st, "value", None), ast.List) and st.value.elts \
+                    and any(isinstance(x, ast.Starred) for x in st.value.elts):
+                display_items(st.value, guard)
             if isinstance(st, ast.If) and guard is None:
                 walk(st.body, ast.unparse(st.test))
                 walk(st.orelse, "not (" + ast.unparse(st.test) + ")")
             elif isinstance(st, (ast.For, ast.With)):
+                if isinstance(st, ast.For) and isinstance(st.iter, ast.List) and any(isinstance(x, ast.Starred) for x in st.iter.elts):
+                    display_items(st.iter, guard)        # the table was substituted into the loop that consumes it
                 walk(st.body, guard)
     walk(fn_node.body, None)
     return out
